@@ -67,7 +67,6 @@
 
 EXPORT int vprintf_s(const char *restrict fmt, va_list ap) {
     int ret;
-    const char *p;
 
     if (unlikely(fmt == NULL)) {
         invoke_safe_str_constraint_handler("vprintf_s: fmt is null", NULL,
@@ -75,13 +74,10 @@ EXPORT int vprintf_s(const char *restrict fmt, va_list ap) {
         return -(ESNULLP);
     }
 
-    if (unlikely((p = strnstr(fmt, "%n", RSIZE_MAX_STR)))) {
-        /* at the beginning or if inside, not %%n */
-        if ((p - fmt == 0) || *(p - 1) != '%') {
-            invoke_safe_str_constraint_handler("vprintf_s: illegal %n", NULL,
-                                               EINVAL);
-            return -(EINVAL);
-        }
+    if (unlikely(safec_fmt_has_n(fmt))) {
+        invoke_safe_str_constraint_handler("vprintf_s: illegal %n", NULL,
+                                           EINVAL);
+        return -(EINVAL);
     }
 
     errno = 0;
